@@ -37,6 +37,10 @@ type Node struct {
 	Recv      int      `json:"recv,omitempty"`
 	Method    string   `json:"method,omitempty"`
 	Fields    []string `json:"fields,omitempty"` // struct, ssum: field names, parallel to Elems (sorted)
+	Sig       []string `json:"sig,omitempty"`    // func: the parameters after (which, opn, a, b): "dK" (default K), "reqJ", "*", "*args", "**kwargs"
+	KwReq     []string `json:"kwreq,omitempty"`  // func: required keyword-only parameters
+	K         int      `json:"k,omitempty"`      // tslice: Recv[:K]
+	Extra     []Val    `json:"extra,omitempty"`  // tcat: Recv + (Extra...)
 	A         int      `json:"a,omitempty"`      // ssum: the struct sum  A + B
 	B         int      `json:"b,omitempty"`
 	Init      []Val    `json:"-"`
@@ -55,9 +59,11 @@ type Stmt struct {
 
 type Desc struct {
 	Nodes      []*Node `json:"nodes"`
-	Globals    []int   `json:"globals"`     // node ids bound to g0, g1, ... in this order
-	FailGlobal int     `json:"fail_global"` // execution fails before global #k is assigned (-1: never)
-	FailBuild  int     `json:"fail_build"`  // execution fails inside build() before statement #k (-1: never)
+	Globals    []int   `json:"globals"`        // node ids bound to g0, g1, ... in this order
+	FailGlobal int     `json:"fail_global"`    // execution fails before global #k is assigned (-1: never)
+	FailBuild  int     `json:"fail_build"`     // execution fails inside build() before statement #k (-1: never)
+	Gaps       []int   `json:"gaps,omitempty"` // before global #k a global is declared that is never bound (if False: / for over [])
+	Opts       int     `json:"opts"`           // FileOptions: 1 Recursion, 2 While, 4 no TopLevelControl, 8 no GlobalReassign
 	Stmts      []Stmt  `json:"-"`
 }
 
@@ -75,8 +81,8 @@ func (d *Desc) hashable(v Val) bool {
 	switch n.Kind {
 	case "list", "dict", "set":
 		return false
-	case "ssum":
-		return false // equal to any struct with the same fields: never used as a key
+	case "ssum", "tslice", "tcat":
+		return false // structurally equal to other values: never used as a key
 	case "tuple", "struct":
 		for _, e := range n.Init {
 			if !d.hashable(e) {
@@ -136,10 +142,67 @@ func (d *Desc) add(nd *Node) int {
 			nd.Init = append(nd.Init, m[name])
 		}
 	}
+	d.derivedTuple(nd)
 	nd.Elems = append([]Val{}, nd.Init...)
 	d.Nodes = append(d.Nodes, nd)
 	d.Stmts = append(d.Stmts, Stmt{New: nd.ID})
 	return nd.ID
+}
+
+// derivedTuple fills the contents of a tuple obtained by slicing / concatenating an earlier one.
+func (d *Desc) derivedTuple(nd *Node) {
+	switch nd.Kind {
+	case "tslice":
+		nd.Init = append([]Val{}, d.Nodes[nd.Recv].Init[:nd.K]...)
+	case "tcat":
+		nd.Init = append(append([]Val{}, d.Nodes[nd.Recv].Init...), nd.Extra...)
+	}
+}
+
+// shape gives a function node a parameter list: its defaults spread over optional
+// positional and keyword-only parameters, required keyword-only parameters before
+// and after them, with or without *args / bare * / **kwargs.
+func (nd *Node) shape(r *hx.Rand) {
+	nd.Sig, nd.KwReq = nil, nil
+	var pos, kw []string
+	for j := range nd.Defaults {
+		if r.Intn(2) == 0 {
+			pos = append(pos, fmt.Sprintf("d%d", j))
+		} else {
+			kw = append(kw, fmt.Sprintf("d%d", j))
+		}
+	}
+	for j := r.Intn(3); j > 0; j-- {
+		name := fmt.Sprintf("req%d", j)
+		kw = append(kw, name)
+		nd.KwReq = append(nd.KwReq, name)
+	}
+	for k := len(kw) - 1; k > 0; k-- {
+		j := r.Intn(k + 1)
+		kw[k], kw[j] = kw[j], kw[k]
+	}
+	nd.Sig = pos
+	if len(kw) > 0 {
+		nd.Sig = append(nd.Sig, hx.Pick(r, []string{"*", "*args"}))
+		nd.Sig = append(nd.Sig, kw...)
+	} else if r.Intn(4) == 0 {
+		nd.Sig = append(nd.Sig, "*args")
+	}
+	if r.Intn(3) == 0 {
+		nd.Sig = append(nd.Sig, "**kwargs")
+	}
+	if nd.Sig == nil {
+		nd.Sig = []string{}
+	}
+}
+
+// Kwargs: the keyword arguments a call of the function node must supply.
+func (nd *Node) Kwargs() []starlark.Tuple {
+	var kw []starlark.Tuple
+	for _, name := range nd.KwReq {
+		kw = append(kw, starlark.Tuple{starlark.String(name), starlark.MakeInt(0)})
+	}
+	return kw
 }
 
 // motif appends a fresh list L that is reachable from a new global ONLY through
@@ -155,7 +218,13 @@ func (d *Desc) motif(r *hx.Rand) int {
 			frozenStruct = nd.ID
 		}
 	}
-	switch r.Intn(16) {
+	switch r.Intn(18) {
+	case 16: // a tuple with spare capacity: a prefix slice of a longer one
+		base := d.add(&Node{Kind: "tuple", Init: []Val{tag(), Ref(L), Atom(7), Atom(8)}})
+		return d.add(&Node{Kind: "tslice", Recv: base, K: 2})
+	case 17: // ... and the result of an earlier concatenation
+		base := d.add(&Node{Kind: "tuple", Init: []Val{tag(), Ref(L)}})
+		return d.add(&Node{Kind: "tcat", Recv: base, Extra: []Val{Atom(7), Atom(8), Atom(9)}})
 	case 0:
 		return d.add(&Node{Kind: "list", Init: []Val{Ref(L)}})
 	case 1:
@@ -166,7 +235,9 @@ func (d *Desc) motif(r *hx.Rand) int {
 		b := d.add(&Node{Kind: "bound", Recv: L, Method: "append"})
 		return d.add(&Node{Kind: "dict", Init: []Val{Ref(b), Atom(1)}})
 	case 4: // dict KEY: a closure over L
-		f := d.add(&Node{Kind: "func", Captures: []int{L}})
+		fn := &Node{Kind: "func", Captures: []int{L}}
+		fn.shape(r)
+		f := d.add(fn)
 		return d.add(&Node{Kind: "dict", Init: []Val{Ref(f), Atom(1)}})
 	case 5: // dict KEY: a tuple that holds a bound method of L
 		b := d.add(&Node{Kind: "bound", Recv: L, Method: "extend"})
@@ -187,10 +258,14 @@ func (d *Desc) motif(r *hx.Rand) int {
 			a, b = b, a
 		}
 		return d.add(&Node{Kind: "ssum", A: a, B: b})
-	case 10:
-		return d.add(&Node{Kind: "func", Defaults: []Val{Ref(L)}})
+	case 10: // a default, somewhere in a parameter list of any shape
+		fn := &Node{Kind: "func", Defaults: []Val{Atom(3), Ref(L), Atom(4)}[r.Intn(2) : 2+r.Intn(2)]}
+		fn.shape(r)
+		return d.add(fn)
 	case 11:
-		return d.add(&Node{Kind: "func", Captures: []int{L}})
+		fn := &Node{Kind: "func", Captures: []int{L}}
+		fn.shape(r)
+		return d.add(fn)
 	case 12:
 		return d.add(&Node{Kind: "bound", Recv: L, Method: "insert"})
 	case 13: // a chain
@@ -224,9 +299,20 @@ func Corner() *Desc {
 	l := d.add(&Node{Kind: "list", Init: big})
 	d.add(&Node{Kind: "tuple", Init: []Val{Atom(1006), Ref(0), Ref(l)}})
 	d.add(&Node{Kind: "struct", Init: []Val{Atom(1007), Ref(1), Ref(2)}})
-	d.add(&Node{Kind: "func", Defaults: []Val{Ref(3)}, Captures: []int{4}})
+	d.add(&Node{Kind: "func", Defaults: []Val{Ref(3)}, Captures: []int{4}, Sig: []string{"*", "req1", "d0"}, KwReq: []string{"req1"}})
 	d.add(&Node{Kind: "bound", Recv: 0, Method: "setdefault"})
 	d.add(&Node{Kind: "bound", Recv: 1, Method: "add"})
+	// functions whose defaults sit after / before required keyword-only parameters
+	la := d.add(&Node{Kind: "list", Init: []Val{Atom(2)}})
+	lb := d.add(&Node{Kind: "dict", Init: []Val{Atom(1), Atom(1)}})
+	d.add(&Node{Kind: "func", Defaults: []Val{Ref(la), Ref(lb)}, Sig: []string{"*args", "req1", "d0", "req2", "d1", "**kwargs"}, KwReq: []string{"req1", "req2"}})
+	lc := d.add(&Node{Kind: "set", Init: []Val{Atom(20)}})
+	d.add(&Node{Kind: "func", Defaults: []Val{Ref(lc), Atom(1)}, Sig: []string{"d1", "*", "d0", "req1"}, KwReq: []string{"req1"}})
+	// tuples whose array is longer than they are
+	tb := d.add(&Node{Kind: "tuple", Init: []Val{Atom(1090), Atom(1), Atom(2), Atom(3), Atom(4)}})
+	d.add(&Node{Kind: "tslice", Recv: tb, K: 2})
+	d.add(&Node{Kind: "tslice", Recv: tb, K: 3})
+	d.add(&Node{Kind: "tcat", Recv: tb, Extra: []Val{Atom(5), Atom(6), Atom(7)}})
 	// struct sums with exactly one operand frozen beforehand, in both orders
 	h := d.add(&Node{Kind: "struct", Host: true, PreFrozen: true, Init: []Val{Atom(1011), Atom(5)}})
 	l1 := d.add(&Node{Kind: "list", Init: []Val{Atom(1)}})
@@ -236,7 +322,7 @@ func Corner() *Desc {
 	s2 := d.add(&Node{Kind: "struct", Init: []Val{Atom(1016), Ref(l2)}})
 	d.add(&Node{Kind: "ssum", A: h, B: s2})
 	for i := range d.Nodes {
-		if i == l1 || i == s1 || i == l2 || i == s2 {
+		if i == l1 || i == s1 || i == l2 || i == s2 || i == la || i == lb || i == lc {
 			continue // reachable from the globals only through the sums
 		}
 		d.Globals = append(d.Globals, i)
@@ -266,11 +352,46 @@ func GenWith(r *hx.Rand, shared bool) *Desc {
 		nd := &Node{ID: id, Exists: true}
 		host := id < nhost
 		nd.Host = host
-		kinds := []string{"list", "list", "dict", "dict", "set", "tuple", "struct", "ssum", "ssum", "func", "func", "bound"}
+		kinds := []string{"list", "list", "dict", "dict", "set", "tuple", "tuple", "tslice", "tcat", "struct", "ssum", "ssum", "func", "func", "bound"}
 		if host {
 			kinds = []string{"list", "dict", "set", "struct"}
 		}
 		nd.Kind = hx.Pick(r, kinds)
+		if nd.Kind == "tslice" || nd.Kind == "tcat" {
+			// derived from an earlier tuple of the module
+			var cands []int
+			for j := 0; j < id; j++ {
+				k := d.Nodes[j].Kind
+				if (k == "tuple" || k == "tslice" || k == "tcat") && (nd.Kind == "tcat" || len(d.Nodes[j].Init) >= 2) {
+					cands = append(cands, j)
+				}
+			}
+			if len(cands) == 0 {
+				nd.Kind = "tuple"
+			} else {
+				nd.Recv = hx.Pick(r, cands)
+				if nd.Kind == "tslice" {
+					nd.K = 1 + r.Intn(len(d.Nodes[nd.Recv].Init)-1)
+					// two equal prefixes of one array are one and the same Go value: keep them distinct
+					root := func(x *Node) int {
+						for x.Kind == "tslice" {
+							x = d.Nodes[x.Recv]
+						}
+						return x.ID
+					}
+					for _, o := range d.Nodes {
+						if o.Kind == "tslice" && o.K == nd.K && root(o) == root(d.Nodes[nd.Recv]) {
+							nd.Kind = "tuple"
+						}
+					}
+				} else {
+					for j := 1 + r.Intn(3); j > 0; j-- {
+						nd.Extra = append(nd.Extra, Atom(int64(30+j)))
+					}
+				}
+				d.derivedTuple(nd)
+			}
+		}
 		if nd.Kind == "ssum" {
 			// the sum of two earlier structs (one of them possibly a frozen host struct)
 			var cands []int
@@ -407,6 +528,7 @@ func GenWith(r *hx.Rand, shared bool) *Desc {
 			if len(nd.Defaults)+len(nd.Captures) == 0 {
 				nd.Defaults = []Val{Atom(0)}
 			}
+			nd.shape(r)
 		}
 		nd.Elems = append([]Val{}, nd.Init...)
 		d.Nodes = append(d.Nodes, nd)
@@ -486,6 +608,16 @@ func GenWith(r *hx.Rand, shared bool) *Desc {
 			ng++
 		}
 	}
+	// globals that are declared but never bound, interleaved with the bound ones
+	if r.Intn(3) == 0 {
+		for k := 1 + r.Intn(2); k > 0; k-- {
+			d.Gaps = append(d.Gaps, r.Intn(ng+1))
+		}
+		sort.Ints(d.Gaps)
+		d.Opts = r.Intn(4) | 8*r.Intn(2)
+	} else {
+		d.Opts = r.Intn(16)
+	}
 	switch r.Intn(10) {
 	case 0, 1:
 		d.FailGlobal = r.Intn(ng + 1)
@@ -561,6 +693,10 @@ func (d *Desc) Source() string {
 				fmt.Fprintf(&b, "    n%d = reg(%d, [%s])\n", id, id, d.exprs(nd.Init))
 			case "tuple":
 				fmt.Fprintf(&b, "    n%d = reg(%d, (%s,))\n", id, id, d.exprs(nd.Init))
+			case "tslice":
+				fmt.Fprintf(&b, "    n%d = reg(%d, %s[:%d])\n", id, id, d.expr(Ref(nd.Recv)), nd.K)
+			case "tcat":
+				fmt.Fprintf(&b, "    n%d = reg(%d, %s + (%s,))\n", id, id, d.expr(Ref(nd.Recv)), d.exprs(nd.Extra))
 			case "set":
 				fmt.Fprintf(&b, "    n%d = reg(%d, set([%s]))\n", id, id, d.exprs(nd.Init))
 			case "dict":
@@ -585,9 +721,22 @@ func (d *Desc) Source() string {
 				for _, c := range nd.Captures {
 					tup = append(tup, fmt.Sprintf("n%d", c))
 				}
-				for j, v := range nd.Defaults {
-					params += fmt.Sprintf(", d%d=%s", j, d.expr(v))
+				for j := range nd.Defaults {
 					tup = append(tup, fmt.Sprintf("d%d", j))
+				}
+				sig := nd.Sig
+				if sig == nil {
+					for j := range nd.Defaults {
+						sig = append(sig, fmt.Sprintf("d%d", j))
+					}
+				}
+				for _, tok := range sig {
+					var j int
+					if n, _ := fmt.Sscanf(tok, "d%d", &j); n == 1 {
+						params += fmt.Sprintf(", d%d=%s", j, d.expr(nd.Defaults[j]))
+					} else {
+						params += ", " + tok
+					}
 				}
 				fmt.Fprintf(&b, "    def f%d(%s):\n        return _apply((%s,)[which], opn, a, b)\n", id, params, strings.Join(tup, ", "))
 				fmt.Fprintf(&b, "    n%d = reg(%d, f%d)\n", id, id, id)
@@ -609,12 +758,25 @@ func (d *Desc) Source() string {
 	}
 	b.WriteString("    return None\n")
 	b.WriteString("build()\n")
+	gap := func(i int) {
+		for j, k := range d.Gaps {
+			if k == i {
+				if (i+j)%2 == 0 {
+					fmt.Fprintf(&b, "if len([]) == 1:\n    u%d_%d = [0]\n", i, j)
+				} else {
+					fmt.Fprintf(&b, "for _e%d_%d in []:\n    u%d_%d = {}\n", i, j, i, j)
+				}
+			}
+		}
+	}
 	for i, g := range d.Globals {
 		if i == d.FailGlobal {
 			b.WriteString("boom()\n")
 		}
+		gap(i)
 		fmt.Fprintf(&b, "g%d = pick(%d)\n", i, g)
 	}
+	gap(len(d.Globals))
 	if d.FailGlobal == len(d.Globals) {
 		b.WriteString("boom()\n")
 	}
@@ -639,7 +801,11 @@ func (in *Instance) Value(v Val) starlark.Value {
 	return in.Objs[v[1]]
 }
 
-var fileOpts = &syntax.FileOptions{Set: true, GlobalReassign: true, TopLevelControl: true}
+// FileOptions of a description (Set is always needed: the modules call set()).
+func (d *Desc) FileOptions() *syntax.FileOptions {
+	return &syntax.FileOptions{Set: true, Recursion: d.Opts&1 != 0, While: d.Opts&2 != 0,
+		TopLevelControl: d.Opts&4 == 0, GlobalReassign: d.Opts&8 == 0}
+}
 
 func Instantiate(d *Desc, src string) *Instance { return InstantiateWith(d, src, nil) }
 
@@ -715,7 +881,7 @@ func InstantiateWith(d *Desc, src string, onReg func(id int, v starlark.Value)) 
 		}
 	}
 	in.Predecl = pre
-	in.Globals, in.Err = starlark.ExecFileOptions(fileOpts, in.Thread, "m.star", src, pre)
+	in.Globals, in.Err = starlark.ExecFileOptions(d.FileOptions(), in.Thread, "m.star", src, pre)
 	return in
 }
 
